@@ -12,7 +12,7 @@ func init() {
 	register(&Check{
 		ID:    "C11",
 		Level: "exploration",
-		Rule: "(1) operator table: every binary operator x every (lhs,rhs) over 16 operand expressions {0,1,2,10,(0-3),'', 'a','b','2','10','x1',true,false,match,matchLength,an unset variable} and every unary operator x every operand, restricted to cells the documented typing accepts, each evaluated on two match texts ('12' and 'k'); results observed through a transform's replacement (values) and through if/predicate (booleans); divisor 0 excluded (C09); " +
+		Rule: "(1) operator table: every binary operator x every (lhs,rhs) over 23 operand expressions {0,1,2,10,(0-3),'', 'a','b','2','10','x1','010','0x10','1_0','-5','+5',' 5','1e1',true,false,match,matchLength,an unset variable} and every unary operator x every operand, restricted to cells the documented typing accepts, each evaluated on four match texts ('12', 'k', '010' and a text starting with a 2-byte character); results observed through a transform's replacement (values) and through if/predicate (booleans); divisor 0 excluded (C09); " +
 			"(2) trees: every expression tree with <= 2 binary operators over leaves {2,3,'a',true,match} and with 3 operators over {2,'a',true} (thorough: plus 3) in every shape and operator assignment the typing accepts, rendered with minimal and with full parentheses: both must parse to the same tree and evaluate to the reference value; " +
 			"oracle: an independent evaluator written from the two documented tables; non-trivial = distinct (expression,text) evaluations whose operands have different types or whose tree has >= 2 operators",
 		Assume: []string{"== / != vs < > <= >= relative precedence is not fixed by the documentation: trees mixing the two groups are excluded"},
@@ -21,7 +21,7 @@ func init() {
 	})
 }
 
-var c11Texts = []string{"12", "k"}
+var c11Texts = []string{"12", "k", "010", "\xc3\xa91"}
 
 func c11Env(text string) map[string]PV {
 	return map[string]PV{"match": pvS(text), "matchLength": pvN(len(text)), "matchNumber": pvN(1)}
@@ -30,6 +30,7 @@ func c11Env(text string) map[string]PV {
 func c11Operands() []*PE {
 	return []*PE{leafNum(0), leafNum(1), leafNum(2), leafNum(10), bin("-", leafNum(0), leafNum(3)),
 		leafStr(""), leafStr("a"), leafStr("b"), leafStr("2"), leafStr("10"), leafStr("x1"),
+		leafStr("010"), leafStr("0x10"), leafStr("1_0"), leafStr("-5"), leafStr("+5"), leafStr(" 5"), leafStr("1e1"),
 		leafBool(true), leafBool(false), leafVar("match", TStr), leafVar("matchLength", TNum), leafVar("unset", TStr)}
 }
 
@@ -174,6 +175,9 @@ func runC11(c *Ctx) {
 					// unary applied to a comparison / concatenation
 					c11Case(c, un(op, bin("==", x, leafStr("a"))), true)
 					c11Case(c, un(op, bin("+", leafStr("q"), x)), true)
+					// head and tail together must give the operand back, byte for byte
+					c11Case(c, bin("+", un("head", x), un("tail", x)), true)
+					c11Case(c, un(op, un("tail", bin("+", x, leafVar("match", TStr)))), true)
 				}
 			}
 		}
